@@ -8,7 +8,7 @@ from vlib import core
 from vlib.core import Undecided, log
 from vlib.tlaparse import to_json
 
-HARNESS = ["zz_verif_cons_test.go", "zz_verif_cons_sync_test.go", "zz_verif_repotrace_test.go"]
+HARNESS = ["zz_verif_cons_test.go", "zz_verif_cons_sync_test.go", "zz_verif_cons_routine_test.go", "zz_verif_repotrace_test.go"]
 
 
 def build(ctx):
@@ -487,7 +487,7 @@ def plan_from_drift_solo(ctx, binp, rows, drifts, base_inp, info, byz, maxround,
         with open(os.path.join(base, name + ".tla")) as f:
             txt = f.read()
         txt = txt.replace("====", 'PlanFinish == l = Len(Trace) + 1 /\\ PrintT(<<"PLANSTATE", st, sgn>>) /\\ l\' = l + 1 /\\ '
-                          'UNCHANGED <<st, dec, sgn, gst, viol, drift>>\nPlanNext == Step \\/ PlanFinish\n====')
+                          'UNCHANGED <<st, dec, sgn, gst, viol, drift, wlog>>\nPlanNext == Step \\/ PlanFinish\n====')
         with open(os.path.join(base, name + ".tla"), "w") as f:
             f.write(txt)
         dd = os.path.join(ctx.work, "plan-%s-%d" % (label, k))
@@ -561,31 +561,51 @@ def _tla_step(st):
     return '[name |-> "%s", n |-> "%s", m |-> %s, k |-> "%s"]' % (st["name"], st["n"], _tla_msg(m), st.get("k") or "-")
 
 
-def net_plan(ctx, name, info, byz, maxround, prefix_steps, weak, invariant, corridor=None, slack=14, budget=900, byzvalues=None):
+def restart_mc(ctx, name, info, byz, maxround, weak=(), lazy=True, view=True, invariants=(), byzvalues=None,
+               max_restarts=1):
+    """TMConsensusRestart (TMConsensusNet + WAL + stop/start inside the height)."""
+    consts = dict(NET_CONSTS)
+    consts["Byz"] = tla_set(byz)
+    consts["LazyByz"] = "TRUE" if lazy else "FALSE"
+    consts["MaxRestarts"] = str(max_restarts)
+    if byzvalues is not None:
+        consts["ByzValues"] = tla_set(byzvalues)
+    return gen_mc(ctx, name, "TMConsensusRestart", info, byz, maxround, extra_consts=consts, init="RInit", next_="RNext",
+                  invariants=invariants, view="RView" if view else None, weak=weak)
+
+
+def net_plan(ctx, name, info, byz, maxround, prefix_steps, weak, invariant, corridor=None, slack=14, budget=900, byzvalues=None,
+             restarts=None):
     """Breadth-first search of TMConsensusNet (with the Weak switches given) for a violation of `invariant` among the
     behaviours that START WITH the schedule `prefix_steps` and continue freely for at most `slack` steps (inside the
     state constraint `corridor`, if any).  Returns (all steps, TLCResult) or (None, TLCResult).  Synthesis only."""
-    net_mc(ctx, name, info, byz, maxround, weak=weak, lazy=False, view=False, invariants=[invariant], byzvalues=byzvalues)
+    init, nxt = "Init", "Next"
+    if restarts is None:
+        net_mc(ctx, name, info, byz, maxround, weak=weak, lazy=False, view=False, invariants=[invariant], byzvalues=byzvalues)
+    else:     # behaviours of TMConsensusRestart; restarts = {"max": n}
+        restart_mc(ctx, name, info, byz, maxround, weak=weak, lazy=False, view=False, invariants=[invariant], byzvalues=byzvalues,
+                   max_restarts=restarts.get("max", 2))
+        init, nxt = "RInit", "RNext"
     d = ctx.spec_copy()
     with open(os.path.join(d, name + ".tla")) as f:
         txt = f.read()
     sched = "<<" + ",\n  ".join(_tla_step(s) for s in prefix_steps) + ">>"
     txt = txt.replace("====", """VARIABLE pc
 PSched == %s
-PInit == Init /\\ pc = 0
-PNext == /\\ Next
+PInit == %s /\\ pc = 0
+PNext == /\\ %s
          /\\ pc' = pc + 1
          /\\ (pc < Len(PSched) => (act'.name = PSched[pc + 1].name /\\ act'.n = PSched[pc + 1].n /\\ act'.k = PSched[pc + 1].k
                                     /\\ (act'.name # "Deliver" \\/ act'.m = PSched[pc + 1].m)))
 PBound == pc <= Len(PSched) + %d
 PCorridor == pc <= Len(PSched) \\/ %s
-====""" % (sched, slack, corridor or "TRUE"))
+====""" % (sched, init, nxt, slack, corridor or "TRUE"))
     with open(os.path.join(d, name + ".tla"), "w") as f:
         f.write(txt)
     with open(os.path.join(d, name + ".cfg")) as f:
         c = f.read()
     with open(os.path.join(d, name + ".cfg"), "w") as f:
-        f.write(c.replace("INIT Init", "INIT PInit").replace("NEXT Next", "NEXT PNext") + "CONSTRAINT PBound\nCONSTRAINT PCorridor\n")
+        f.write(c.replace("INIT " + init, "INIT PInit").replace("NEXT " + nxt, "NEXT PNext") + "CONSTRAINT PBound\nCONSTRAINT PCorridor\n")
     r = ctx.tlc(name, name + ".cfg", timeout=budget, heap="12g", label=name)
     if not r.violations:
         return None, r
@@ -638,7 +658,7 @@ def plan_from_drift_net(ctx, binp, rows, drifts, base_inp, info, byz, maxround, 
         with open(os.path.join(base, name + ".tla")) as f:
             txt = f.read()
         txt = txt.replace("====", 'PlanFinish == l = Len(Trace) + 1 /\\ PrintT(<<"PLANSTATE", st, sgn>>) /\\ l\' = l + 1 /\\ '
-                          'UNCHANGED <<st, dec, sgn, gst, viol, drift>>\nPlanNext == Step \\/ PlanFinish\n====')
+                          'UNCHANGED <<st, dec, sgn, gst, viol, drift, wlog>>\nPlanNext == Step \\/ PlanFinish\n====')
         with open(os.path.join(base, name + ".tla"), "w") as f:
             f.write(txt)
         dd = os.path.join(ctx.work, "plann-%s-%d" % (label, k))
@@ -697,3 +717,85 @@ PlanCorridor == \A n \in Corr : rs[n].round <= PlanR + 1
     v = validate(ctx, prow, info, byz, maxround, "plann" + label, dedupe=False)
     log("planned continuations %s: %d schedules -> %d property failures on the real nodes" % (label, len(plans), len(v["viol"])))
     return prow, v
+
+
+# ---------------------------------------------------------------- stop/start inside a height (TMConsensusRestart)
+RESTART_WEAK = (("ClaimsNotLogged", "LockSurvives"), ("WalSkipsBlockParts", "ReplayFaithful"),
+                ("WalSkipsTimeouts", "ReplayFaithful"), ("WalSkipsOwnVotes", "ReplayFaithful"))
+
+
+def restart_section(ctx, binp, attacks, account, cov, totals, label="R", walks=None, quick=None):
+    """Nodes run the real receiveRoutine on a real WAL (routine mode of the driver); a node may be stopped and started
+    inside the height (real catchupReplay).  TLC: TMConsensusRestart exhaustive on 2+1 with one restart (all network
+    invariants + ReplayFaithful + LockSurvives), its weak switches refuted on 3+1 round 0 and the counterexamples
+    (followed by the restart they prepare) executed on the real nodes, simulated behaviours with restarts, the
+    restart schedules of the attack library, random walks with restarts.  Everything observed is validated by
+    TMConsensusTrace (StepRestart folds the observed log)."""
+    quick = ctx.tier == "quick" if quick is None else quick
+    out = {}
+    # R1: exhaustive, 2 correct + 1 faulty, rounds 0..1, at most one restart (thorough: two)
+    powers, byz = [2, 2, 1], ["v2"]
+    info = run_driver(ctx, binp, {"mode": "info", "powers": powers, "byz": byz, "maxround": 14}, "info" + label)
+    mc = restart_mc(ctx, "CR_small_" + label, info, byz, 1, invariants=NET_INVS + ["ReplayFaithful", "LockSurvives"],
+                    max_restarts=1 if quick else 2)
+    r1 = ctx.tlc(mc, mc + ".cfg", must_pass=True, timeout=3000, label="restart_small")
+    totals["states"] += r1.distinct
+    totals["transitions"] += r1.generated
+    out["exhaustive_2+1"] = {"states": r1.distinct, "max_restarts": 1 if quick else 2, "exhaustive": not r1.timed_out}
+    # R2: non-vacuity on 3 correct + 1 faulty, round 0; each counterexample + the restart it prepares runs on real nodes
+    powers3 = [1, 1, 1, 1]
+    info3 = run_driver(ctx, binp, {"mode": "info", "powers": powers3, "byz": [], "maxround": 14}, "info3" + label)
+    byz3 = [info3["names"][3]]
+    corr3 = [n for n in info3["names"] if n not in byz3]
+    scheds, nonvac = [], {}
+    for k, (weak, inv) in enumerate(RESTART_WEAK):
+        m2 = restart_mc(ctx, "CR_weak_%s_%s" % (weak, label), info3, byz3, 0, weak=[weak], invariants=[inv], max_restarts=1)
+        rw = ctx.tlc(m2, m2 + ".cfg", timeout=900, label="restart_weak_" + weak)
+        found = [x["name"] for x in rw.violations]
+        nonvac[weak] = found
+        if not found:
+            raise Undecided("vacuity: TMConsensusRestart with the switch %s is not refuted by TLC" % weak)
+        steps = trace_to_sched(rw.violations[0]["trace"])["steps"]
+        for n in corr3:
+            scheds.append({"id": 300000 + 10 * k + corr3.index(n),
+                           "steps": steps + [{"name": "Restart", "n": n, "m": {"t": "-", "src": "-", "r": -1, "v": "-", "pol": -2}, "k": "-"}]})
+    out["nonvacuity"] = nonvac
+    # R3: simulated behaviours of the real restart spec (3+1, rounds 0..2)
+    mcs = restart_mc(ctx, "CR_sim_" + label, info3, byz3, 2, lazy=False, view=False, invariants=NET_INVS + ["ReplayFaithful", "LockSurvives"],
+                     max_restarts=3)
+    nb = 12 if quick else 200
+    pref = "behR" + label
+    rs_ = ctx.tlc(mcs, mcs + ".cfg", simulate="file=%s,num=%d" % (os.path.join(ctx.spec_copy(), pref), nb),
+                  depth=70, seed=ctx.seed, workers=1, timeout=1500, label="restart_sim")
+    if rs_.violations or rs_.errors:
+        ctx.save_log("simR" + label, rs_.out)
+        raise Undecided("simulation of TMConsensusRestart reported %s" % (rs_.violations or rs_.errors)[:1])
+    totals["transitions"] += rs_.generated
+    sims = sim_to_scheds(ctx, ctx.spec_copy(), pref)
+    for k, sc in enumerate(sims):
+        sc["id"] = 310000 + k
+    n_restarts_sim = sum(1 for sc in sims for st in sc["steps"] if st["name"] == "Restart")
+    scheds += sims
+    lib = [a for a in attacks if a.get("restart") and a["powers"] == powers3 and a["byz"] == byz3]
+    nwalk = walks if walks is not None else (12 if quick else 150)
+    stats_all = {}
+    for stamp in (0, 1):
+        for fpv in ([False] if quick else [False, True]):
+            sch = list(scheds) if stamp == 0 else []
+            sch += [{"id": 320000 + k, "steps": a["steps"]} for k, a in enumerate(lib) if a.get("stamp", 0) == stamp]
+            tag = "%s%d%s" % (label, stamp, "f" if fpv else "m")
+            inp = {"mode": "replay", "dups": 0, "powers": powers3, "byz": byz3, "maxround": 9, "filepv": fpv, "scheds": sch,
+                   "routine": True, "stamp": stamp, "restarts": 14, "synctail": True, "byzafter": True,
+                   "random": nwalk // 2, "randlen": 160}
+            rows, stats = run_driver(ctx, binp, inp, tag)
+            v = validate(ctx, rows, info3, byz3, 9, tag)
+            account(v, rows, "3+1 with stop/start inside the height (real receiveRoutine, WAL, catchupReplay), part stamp +%d, %s" %
+                    (stamp, "FilePV" if fpv else "MockPV"))
+            for k2 in stats:
+                stats_all[k2] = stats_all.get(k2, 0) + stats[k2]
+            out.setdefault("restarts_executed", 0)
+            out["restarts_executed"] += sum(1 for r in rows if r.get("ev") == "Restart")
+    out.update({"simulated_behaviours": len(sims), "restarts_in_simulated_behaviours": n_restarts_sim,
+                "attack_schedules": [a["name"] for a in lib], "driver": stats_all})
+    cov["restart_family"] = out
+    return out
